@@ -103,7 +103,7 @@ class LogGroup(Sub):
                 continue
             tau, phi, sigma = R.split_alg(alt, xv)
             th = float(np.linalg.norm(phi))
-            rec.check(th <= math.pi * (1 + 4 * eps), "principal:" + lt, "Log(%s): rotation part has norm %.17g > pi" % (it, th))
+            rec.check(th <= math.pi * (1 + 8 * eps), "principal:" + lt, "Log(%s): rotation part has norm %.17g > pi" % (it, th))
             # (a) reference Exp(Log X) is the same transformation as X
             ref = R.exp_ref_parts(alt, xv)
             Mx = R.mat4(lt, it)
